@@ -31,4 +31,5 @@ let () =
        end
      done
    with End_of_file -> ());
+  if kind = "zob" then Miscchk.zob_finish ();
   if kind <> "fengen" && kind <> "sangen" && kind <> "coqcases" then finish ()
